@@ -50,7 +50,8 @@ REQUIRED = ["OPM.C29.C29_partial", "OPM.C29.C29_counterexample", "OPM.C29.stream
             "OPM.C29.never_older", "OPM.C29.faithful", "OPM.C29.after_last_persisted", "OPM.C29.persisted_time_bounds",
             "OPM.C29.whole_run"]
 
-TAGS = ["a", "b", "c", "Mark", "Run Time", "é|;"]
+TAGS = ["a", "b", "c", "Mark", "Run Time", "é|;", "Method Status"]
+METHOD_STATUS = "Method Status"      # SystemTagName.METHOD_STATUS: sets RunData.interrupted_by_error in tag_values_changed
 
 
 # ------------------------------------------------------------------------------------------------
@@ -118,6 +119,9 @@ def execute(case) -> tuple[list[str], list[dict]]:
             elif op[0] == "reconnect":
                 h.disconnect()
                 h.register()
+            elif op[0] == "dupstart":           # the RunStartedMsg of the active run is delivered once more
+                if h.current_run_id() is not None:
+                    h.run_started(h.current_run_id())
             elif op[0] == "tags":
                 try:
                     h.tags_updated([(n, pyvalue(v), t / 8) for (n, v, t) in op[2]], None if op[1] is None else f"run-{op[1]}")
@@ -252,6 +256,24 @@ def gen_exhaustive(ctx: Check) -> list[dict]:
 
     maxlen = ctx.n(3, 5)
     cases = [case(seq) for k in range(0, maxlen + 1) for seq in itertools.product(syms, repeat=k)]
+    # the same with a re-delivered RunStartedMsg and Method Status = Error / OK reports in between (times 1, 1.5, 3 s)
+    syms2 = [(n, t) for n in ("a", "b") for t in (8, 12, 24)] + ["dupstart", "Error", "OK"]
+
+    def case2(seq):
+        ops = [["uod", ["a", "b"], 8], ["newrun"]]
+        for j, x in enumerate(seq):
+            if x == "dupstart":
+                ops.append(["dupstart"])
+            elif isinstance(x, str):
+                ops.append(["tags", 0, [[METHOD_STATUS, x, 8]]])
+            else:
+                ops.append(["tags", 0, [[x[0], 100 + j, x[1]]]])
+        return {"ops": ops}
+
+    for k in range(1, ctx.n(3, 4) + 1):
+        for seq in itertools.product(syms2, repeat=k):
+            if any(isinstance(x, str) for x in seq):
+                cases.append(case2(seq))
     for _ in range(ctx.n(300, 3000)):           # longer ones, sampled
         cases.append(case([ctx.rng.choice(syms) for _ in range(ctx.rng.randrange(maxlen + 1, maxlen + 4))]))
     return cases
@@ -308,6 +330,9 @@ def gen_stream(ctx: Check, malformed: bool) -> dict:
             v = _value(rng, counter)
             if n == "Mark":
                 v = rng.choice(["", "", "A", f"m{counter[0]}"])
+            if n == METHOD_STATUS:
+                v = rng.choice(["Error", "Error", "OK"])
+                ctx.count(f"method-status:{v}")
             ups.append([n, v, clock if rng.random() < 0.9 else clock - rng.choice([1, 8, 24])])
         r = rng.random()
         mr = run if r < 0.9 else (None if r < 0.95 else run + 1)
@@ -321,6 +346,11 @@ def gen_stream(ctx: Check, malformed: bool) -> dict:
             if msgs[-1][0] == "newrun":
                 run += 1
             ctx.count("mid-stream:" + msgs[-1][0])
+        if rng.random() < 0.06:                  # the RunStartedMsg of the run is delivered again (at-least-once delivery)
+            msgs.append(["dupstart"])
+            ctx.count("mid-stream:duplicate-run-started")
+            if rng.random() < 0.5 and len(msgs) >= 2 and msgs[-2][0] == "tags":
+                msgs.append(["tags", msgs[-2][1], [list(u) for u in msgs[-2][2]]])      # ... and so is the last tag message
         if rng.random() < 0.05:                  # the connection is lost and re-established; the engine announces itself again
             msgs.append(["reconnect"])
             ctx.count("mid-stream:reconnect")
@@ -388,9 +418,12 @@ def run(ctx: Check) -> int:
     ctx.rule = ("cases = op sequences for one registered engine against a fresh database: UodInfoMsg (reading names, "
                 "data_log_interval_seconds), RunStartedMsg (fresh id), RunStoppedMsg, TagsUpdatedMsg (run id of the run / "
                 "None / another id; tag values with tick times). Exhaustive: after [uod {a,b} 1 s, start] every stream up to "
-                "length 3 (quick) / 5 (thorough) of single-update messages over 2 tags x 3 times. Generated: engine-like "
+                "length 3 (quick) / 5 (thorough) of single-update messages over 2 tags x 3 times, and every stream up to length 3 / 4 "
+                "over 9 symbols that also has a re-delivered RunStartedMsg of the run and Method Status = Error / OK reports "
+                "(the tag that sets RunData.interrupted_by_error). Generated: engine-like "
                 "streams (advancing clock, 40 % of tags change per tick, 10 % stale tick times, Mark resets, tags without "
-                "plot-log entry, late unknown tags, wrong/missing run ids, mid-stream stop/start/uod, 5 % per tick a lost and "
+                "plot-log entry, late unknown tags, Method Status Error/OK, wrong/missing run ids, mid-stream stop/start/uod, 6 % per "
+                "tick a re-delivered RunStartedMsg (half of them followed by the last tag message again), 5 % per tick a lost and "
                 "re-established connection followed by the engine's re-announcement) with transport "
                 "perturbations (duplicate, swap, old message late); 15 % malformed (zero / 2^40 / inf interval, "
                 "negative and 2^40 times, empty and repeated tag names in one message). Compared after every op: the rows "
